@@ -109,14 +109,18 @@ def eval_case(ctx, case):
     v = []
     n = 0
     for k, tear in pts:
-        crash = faults.apply_log(sc["pre"], log[:k], tear)
-        key = engine.canon(crash) + str(hash(frozenset((p, c) for p, c in crash.items() if ref.is_in_ascmhl(p))))
-        if key in seen:
-            continue
-        seen.add(key)
-        n += 1
-        one = dict(case, only=[k, tear])
-        v += judge_state(ctx, sc, crash, faults.label(log, k, tear), base, final, one)
+        for lose in ((False, True) if faults.has_open_files(log[:k]) else (False,)):
+            if "only_lose" in case and lose != case["only_lose"]:
+                continue
+            crash = faults.apply_log(sc["pre"], log[:k], tear, lose_buffers=lose)
+            key = engine.canon(crash) + str(hash(frozenset((p, c) for p, c in crash.items() if ref.is_in_ascmhl(p))))
+            if key in seen:
+                continue
+            seen.add(key)
+            n += 1
+            one = dict(case, only=[k, tear], only_lose=lose)
+            lab = faults.label(log, k, tear) + (" (unflushed data of open files lost)" if lose else "")
+            v += judge_state(ctx, sc, crash, lab, base, final, one)
     return v, n, len(log), len(pts)
 
 
@@ -153,7 +157,8 @@ def main(tier, seed):
                    "torn at 1 byte / half / all-but-one / every 4 KiB (thorough: every byte of the chain rewrite); each distinct crash "
                    "state is materialised and recovered with info, verify and create; distinct = distinct crash states"}
     eng.assumptions += ["crash model: process kill - completed operations persist in program order, the write in flight may be cut at "
-                        "any stream prefix; power-loss reordering of unsynced blocks is not modelled (the tool never syncs)",
+                        "any stream prefix, and the unflushed data of every file that is still open may be lost entirely (also after a "
+                        "rename of that file); power-loss reordering of unsynced blocks is not modelled (the tool never syncs)",
                         "a complete but not yet chained manifest counts as 'present'; an ascmhl folder that holds no manifest and no "
                         "chain is 'no history yet'"]
     return eng.finish(cov, _eval_only)
